@@ -44,6 +44,10 @@ def cases(tier, seed):
          'max_iter': [1000, 1000, 5, 1000, 1][i % 5]}
     if name == 'LSML_Supervised':
       p['n_constraints'] = int(r.choice([8, 15, 30]))
+    # (progress output is a configuration like any other: it must not
+    # alter what is computed)
+    if i % 5 == 2:
+      p['verbose'] = True
     out.append({'est': name, 'params': p, 'mode': mode,
                 'weights': [None, 'array', 'list', 'int', 'small', 'large']
                 [i % 6],
